@@ -99,8 +99,19 @@ def _b(v):
     return v
 
 
+class _Foreign(object):
+    pass
+
+
+def _foreign(x):
+    """equal objects must have equal hashes, so an IP object cannot equal an object of a foreign type (whose hash is its own)"""
+    o = _Foreign()
+    assert (x == o) is False and (x != o) is True, "%r compares equal to a foreign object" % (x,)
+
+
 def impl_cmp(a, b):
     x, y = _mk(a), _mk(b)
+    _foreign(x)
     return [_b(x == y), _b(x != y), _b(x < y), _b(x <= y), _b(x > y), _b(x >= y),
             (not (x == y)) or hash(x) == hash(y), _b(y == x), _b(y <= x)]
 
